@@ -215,7 +215,7 @@ var c16Kinds = [c16NKinds]c16Kind{
 	c16KHeaderMark:   {ContextPayee, c16AlphaPayee, []string{"2024-01-20 * ", "2024-01-20 (c1) ", "2024-01-20 ! "}, 1, []string{""}, []string{""}, 1, false},
 	c16KAccountDir:   {ContextAccount, c16AlphaAccount, []string{"account "}, 1, []string{"", "ex:"}, []string{"", "od"}, 1, false},
 	c16KCommodityDir: {ContextCommodity, c16AlphaComm, []string{"commodity "}, 1, []string{""}, []string{"", "D"}, 1, false},
-	c16KAmount:       {ContextCommodity, c16AlphaComm, []string{"    as:cash  1 ", "    as:cash  1 USD @ 2 ", "    as:cash  -2.50 ", "    as:cash  1", "    as:cash  ", "    as:cash  1 USD = 3 ", "    as:cash   1 ", "\tas:cash  1 "}, 2, []string{""}, []string{"", "  ", "SD", "  ; n"}, 2, true},
+	c16KAmount:       {ContextCommodity, c16AlphaComm, []string{"    as:cash  1 ", "    as:cä😀h  1 ", "    as:cash  1 USD @ 2 ", "    as:cash  -2.50 ", "    as:cash  1", "    as:cash  ", "    as:cash  1 USD = 3 ", "    as:cash   1 ", "\tas:cash  1 "}, 3, []string{""}, []string{"", "  ", "SD", "  ; n"}, 2, true},
 	c16KTag:          {ContextTagName, c16AlphaTag, []string{"    as:cash  1 USD  ; ", "2024-01-20 Shop  ; ", "    as:cash  1 USD  ; trip:a, "}, 1, []string{""}, []string{"", ":a"}, 1, true},
 }
 
@@ -363,7 +363,7 @@ func verifC16Pipeline(cfg c16Cfg) {
 
 	frag := c16MakeFrag(cp, zzverif.Text("frag", kd.alpha, nf))
 	line := pre + frag.text + post
-	startCol := len(pre)
+	startCol := c16U16(pre) // the typed fragment is ASCII; the text before it need not be
 	col := startCol + len(frag.text)
 
 	// --- workspace, server, buffer ---
@@ -402,7 +402,9 @@ func verifC16Pipeline(cfg c16Cfg) {
 	buffer += line
 	if analysis == 1 {
 		zzverif.WriteFile(root+"/main.journal", buffer)
-		_ = s.DidOpen(ctx, &protocol.DidOpenTextDocumentParams{TextDocument: protocol.TextDocumentItem{URI: uri, Text: buffer}})
+		zzNotify(s, func() {
+			_ = s.DidOpen(ctx, &protocol.DidOpenTextDocumentParams{TextDocument: protocol.TextDocumentItem{URI: uri, Text: buffer}})
+		})
 		if zzverif.Engine() {
 			for zzverif.PendingTasks() > 0 {
 				zzverif.RunTask(0)
@@ -577,4 +579,16 @@ func verifC16Pipeline(cfg c16Cfg) {
 		zzverif.Reach("C16.pipe.edit")
 	}
 	zzverif.Reach("C16.pipe.end")
+}
+
+// c16U16: length of s in UTF-16 code units.
+func c16U16(s string) int {
+	n := 0
+	for _, r := range s {
+		n++
+		if r >= 0x10000 {
+			n++
+		}
+	}
+	return n
 }
